@@ -8,6 +8,7 @@ import (
 	"io"
 	"sort"
 	"strings"
+	"sync/atomic"
 	"testing"
 	"testing/synctest"
 	"time"
@@ -72,6 +73,8 @@ type Scenario struct {
 	// Twin runs after each execution, outside the bubble: it may re-execute the same choices on a
 	// variant and append violations to h.Viol (metamorphic oracles).
 	Twin func(t *testing.T, s *Scenario, h *Hist, choices []int)
+	// BoundExact, when > 0, replaces the check's deviation bound for this scenario.
+	BoundExact int
 	// BoundCap, when > 0, caps the deviation bound for this scenario below the check's bound.
 	BoundCap int
 	// Prune enables revisited-state pruning for this scenario even when its check does not prune
@@ -142,6 +145,12 @@ func (h *Hist) Decide(op, target string) sim.Verdict {
 		}
 		return sim.OK
 	}
+	// "reject:<node>": every get / update / delete of that node fails during this slot's scan (an
+	// admission webhook or a broken object): one deviation, not one per call
+	if (op == sim.OpK8sGet || op == sim.OpK8sUpdate || op == sim.OpK8sDelete) && h.SlotFlags["reject:"+target] {
+		h.Trace = append(h.Trace, fmt.Sprintf("  fail %s(%s) [node rejected]", op, target))
+		return sim.Fail
+	}
 	if !h.S.FaultOps[op] {
 		return sim.OK
 	}
@@ -177,10 +186,17 @@ func (b builder) Build() (cloudprovider.CloudProvider, error) {
 			h.W.Phase = prev
 		}
 	}()
+	return awsprov.VerifNewCloudProvider(sim.ASGAPI{W: h.W}, sim.EC2API{W: h.W}, ProviderConfigs(h.S.Groups, h.S.FleetTimeout))
+}
+
+// ProviderConfigs restates cmd/main.go's setupCloudProvider: node group options to provider
+// configuration (C16 compares it with the real function through the tagged probe in /repo/cmd). The
+// fleet ready timeout is the scenario's (default 2.5 s) instead of the option's.
+func ProviderConfigs(groups []GroupSpec, fleetTimeout time.Duration) []cloudprovider.NodeGroupConfig {
 	var cfgs []cloudprovider.NodeGroupConfig
-	for _, g := range h.S.Groups {
+	for _, g := range groups {
 		n := g.Opts
-		to := h.S.FleetTimeout
+		to := fleetTimeout
 		if to == 0 {
 			to = 2500 * time.Millisecond
 		}
@@ -197,7 +213,7 @@ func (b builder) Build() (cloudprovider.CloudProvider, error) {
 			},
 		})
 	}
-	return awsprov.VerifNewCloudProvider(sim.ASGAPI{W: h.W}, sim.EC2API{W: h.W}, cfgs)
+	return cfgs
 }
 
 // NewController starts a controller lifetime. It returns false when start-up failed (the process
@@ -285,8 +301,21 @@ func (h *Hist) runOnce() (res ScanResult) {
 	return res
 }
 
+// InFlightSince is the wall-clock start (Unix nanoseconds) of the execution in progress, 0 when
+// none; InFlightDesc describes it. A watchdog outside the bubble uses them to recognise a CPU-bound
+// loop in the code under test, which virtual time cannot see.
+var (
+	InFlightSince atomic.Int64
+	InFlightDesc  atomic.Value
+)
+
+func wallNow() int64 { return realNow() }
+
 // Run executes one history under the given chooser. It must be called from inside a test.
 func Run(t *testing.T, s *Scenario, ch *explore.Chooser, after func(h *Hist)) {
+	InFlightDesc.Store(s.Name + " prefix=" + fmt.Sprint(ch.Run().Prefix))
+	InFlightSince.Store(wallNow())
+	defer InFlightSince.Store(0)
 	synctest.Test(t, func(t *testing.T) {
 		h := &Hist{S: s, Ch: ch, W: sim.NewWorld(), Cov: map[string]int64{}}
 		defer func() {
